@@ -62,7 +62,8 @@ PROPS['C02'] = {
     'level': 'exploration',
     'passes': [{'variant': 'opt', 'binary': 'cfg', 'runs': [24000, 800000], 'deadline_s': [150, 2400]}],
     'rule': ("one evaluation = one seeded scene (2 destinations, 3-5 sources/masks with transforms, filters, repeats, clips, alpha maps) and 4-10 drawing "
-             "requests (composite32 over all 53 operators weighted to those with fast paths, fill_boxes/rectangles, fill, blt, trapezoids, triangles, glyph runs), "
+             "requests (composite32 over all 53 operators weighted to those with fast paths, fill_boxes/rectangles, fill, blt, trapezoids, triangles, glyph runs; flavours aimed at the "
+             "scaled nearest/bilinear fast paths, solid colours through a mask, and the pixbuf idiom of two images of different formats over the same pixels; boolean setters get 0, 1, 2 and -1), "
              "executed under ALL 32 delegation chains (every subset of {fast,mmx,sse2,ssse3} x wholeops), each on a fresh thread from identical buffers at a "
              "seed-chosen alignment; every destination is compared with the general-only chain on its defined bits.  Non-trivial = every chain drew at least once; "
              "distinct = distinct event hashes (all per-op destination digests of all chains)"),
@@ -88,7 +89,9 @@ PROPS['C04'] = {
     'crash_property': 'C04',
     'rule': ("one evaluation = one seeded scene biased to the geometry the property lists (1-pixel and >32767-pixel images, request rectangles partly or wholly outside, "
              "offsets near +-2^15, extreme scale / translation / near-singular projective transforms, convolution kernels, trapezoids with endpoints at +-32767.99, glyphs half "
-             "outside, fill boxes beyond the destination) executed under the general-only chain plus 5 seed-chosen chains; every image buffer is exact-size against a PROT_NONE "
+             "outside, fill boxes beyond the destination; exact-fit and scaled exact-fit requests that consume a tightly packed source to its last pixel; projective transforms whose true "
+             "mapping stays inside the source while their affine part does not; once in 400 runs an image of 4 GiB and a little whose pixels pixman allocates, with the oracle that the block "
+             "it allocated holds the image it describes) executed under the general-only chain plus 5 seed-chosen chains, by a gcc and by a clang build; every image buffer is exact-size against a PROT_NONE "
              "page with poisoned, checked canaries on the other side; accessor images check every callback against the storage of the participating images; ASan watches pixman's "
              "own heap and stack.  Pixel values are not compared.  Non-trivial = every chain run drew at least once; distinct = distinct event hashes"),
     'real_vs_stub': {'real': IMG_REAL, 'stub_or_simulated': CFG_STUB},
@@ -172,7 +175,7 @@ PROPS['C17'] = {
 PROPS['C08'] = {
     'level': 'exploration',
     'passes': [{'variant': 'opt', 'binary': 'sample', 'runs': [16000, 600000], 'deadline_s': [150, 2400]}],
-    'rule': ("one evaluation = one seeded scene: a source of 1..64 x 1..64 random pixels (a8r8g8b8, x8r8g8b8, a8, r5g6b5; 1x1 and 1xN included), a transform (none, integer and fractional "
+    'rule': ("one evaluation = one seeded scene: a source of 1..64 x 1..64 random pixels (a8r8g8b8, x8r8g8b8, a8, r5g6b5; 1x1 and 1xN included; one scene in twelve a 6000..32000-pixel-wide source minified 100-1000x with the first samples far to its left), a transform (none, integer and fractional "
              "translation, +-scale with positions on pixel boundaries, 90-degree rotations, general affine, projective with w in about [1/2,4]), a filter (NEAREST, BILINEAR and their aliases, "
              "CONVOLUTION and SEPARABLE_CONVOLUTION with non-negative kernels up to 5x5 and 0-2 phase bits), a repeat mode, and 1-3 OP_SRC requests into an a8r8g8b8 destination, executed "
              "under ALL 32 chains and compared pixel by pixel with a reference sampler written from the property statement and rounding.txt: exact for NEAREST and BILINEAR under affine "
